@@ -112,28 +112,28 @@ ADV_ASSUME = ["x/crypto, std crypto, math/big, encoding/json and net/http are tr
               "interleavings are explored at park-point granularity (connection operations, SetCryptographer, lock probe)"]
 
 PROPS["C01"] = {
-    "test": "TestC01", "level": "exploration", "budget": {"quick": 30, "thorough": 900},
+    "test": "TestC01", "level": "exploration", "budget": {"quick": 30, "thorough": 600},
     "rule": "the real transport with 1..3 accessories carrying planted canaries, a legitimate controller L (paired on the wire or pre-seeded) that verifies, writes with ev:true, reads and lists on its own connection, an application goroutine setting values, and 1..3 peer connections (peer has neither setup code nor paired key) running 1..10 messages from: plaintext GET/PUT/POST to /accessories, /characteristics (read, write, ev), /pairings (add, remove, list), /resource, /identify; pair-setup start / verify with wrong proof, A=0 / key exchange sealed under the zero key, HKDF(nil), a random key, shorter than a tag; pair-verify start (valid, wrong length) and finish (wrong key, unknown name, the accessory's own name, stale material, L's captured finish replayed, wrong seal, short, bad TLV); ciphertext GET under keys the peer derives itself (own ECDH secret, zero, random) and L's captured frames replayed; a plaintext request afterwards; the scheduler interleaves all connections and decides segmentation. Oracles: no protected request is served (in plaintext or under a peer-derivable key), no canary / attribute-database key / EVENT reaches a peer connection, no callback or snapshot or subscription or stored pairing is caused by a peer, a cryptographer exists only on L's connection (invariant at every quiescent point), and L keeps working. non-trivial = at least one peer message was answered; distinct = distinct (peer knowledge, per-message kind and status) sequences",
     "real": REAL_SYSTEM, "stub": STUB_SYSTEM, "assumptions": ADV_ASSUME,
     "level_text": "Seeded exploration of request histories of an unprivileged peer interleaved with a legitimate controller, with black-box oracles on every byte the peer receives and white-box invariants (session map, pairing store, subscriptions, callbacks) at every quiescent point.",
     "level_note": "Sampling over a fixed message alphabet; primitives trusted.",
 }
 PROPS["C02"] = {
-    "test": "TestC02", "level": "exploration", "budget": {"quick": 30, "thorough": 900},
+    "test": "TestC02", "level": "exploration", "budget": {"quick": 30, "thorough": 600},
     "rule": "1..2 peer connections (peer knows the setup code in 2/3 of the scenarios) run 1..10 pair-setup messages from {start; verify with right proof / wrong proof / A=0 / A=N / A missing; key exchange genuine / tampered / shorter than a tag / sealed under the all-zero key with HKDF(nil) signature material / under HKDF(nil) / under a random key / signed by another key / signed over another name / replayed from the legitimate controller's exchange; unknown state; unknown method}, optionally while a legitimate controller pairs on a third connection (source of replay material); model: a (name, key) may be stored only once a key-exchange message was sent that the reference built from the session key of a right-proof verify request acknowledged on that connection with no start/verify since, and must be stored once its M6 arrived; invariant required <= stored <= initial + allowed with equal keys at every quiescent point; non-genuine messages must not be answered with a proof or the accessory's encrypted key exchange",
     "real": REAL_SYSTEM, "stub": STUB_SYSTEM, "assumptions": ADV_ASSUME,
     "level_text": "Seeded exploration of pair-setup message sequences (orders and contents) on interleaved connections against a reference that decides which key-exchange messages are genuine; the pairing store is compared with the model at every quiescent point.",
     "level_note": "Sampling over a fixed message alphabet; 10-25 ms per run (SRP).",
 }
 PROPS["C03"] = {
-    "test": "TestC03", "level": "exploration", "budget": {"quick": 30, "thorough": 900},
+    "test": "TestC03", "level": "exploration", "budget": {"quick": 30, "thorough": 600},
     "rule": "pairing sets of 1..3 stored controllers plus the accessory's own entity; 1..2 peer connections (peer holds a stored controller's long-term key in 2/3 of the scenarios) run 1..10 messages from {start with valid / wrong-length key; finish genuine / signed by a wrong key / unknown name / the accessory's own name / over the previous exchange's material / over reordered material / replayed from the legitimate controller / sealed under a wrong key / shorter than a tag / with a broken sub-TLV; unknown state; ciphertext GET under the peer's own ECDH key; plaintext GET afterwards}; oracles: invariant 'cryptographer present => a genuine finish was sent on this connection' at every quiescent point, a non-genuine finish is never answered with state 4 without error, no answer decrypts under a key the peer derived on a model-unverified connection",
     "real": REAL_SYSTEM, "stub": STUB_SYSTEM, "assumptions": ADV_ASSUME,
     "level_text": "Seeded exploration of pair-verify message sequences for several pairing sets; the model verifies a connection only on a finish message the reference built with a stored controller's secret key for the keys of the exchange in progress; checked as a state invariant and black-box (what the peer can decrypt).",
     "level_note": "Sampling over a fixed message alphabet.",
 }
 PROPS["C13"] = {
-    "test": "TestC13", "level": "exploration", "budget": {"quick": 30, "thorough": 900},
+    "test": "TestC13", "level": "exploration", "budget": {"quick": 30, "thorough": 600},
     "rule": "1..2 peer connections, half of the scenarios starting each connection with an honest pair-verify (hostile input after verification), run 1..10 messages from: arbitrary bodies (random bytes, truncated / over-long / duplicated TLV items, encrypted data shorter than a tag, arbitrary JSON incl. wrong types, huge numbers, deep nesting, repeated composite values, odd pairing methods) to /pair-setup, /pair-verify, /pairings, /characteristics (PUT and GET ids), /resource, /accessories, /identify, and protocol messages at every step of pair-setup and pair-verify (wrong proof, A=0, A missing, short / tampered / random key exchange, unknown state / method, short / wrong-seal / bad-TLV / unknown-name finish); oracles: every complete request is answered with a well-formed HTTP response, nothing like 'http: panic serving' appears on the captured server log, and afterwards an honest pair-verify succeeds on the same connection after at most one rejected start and an honest pair-setup + pair-verify + GET succeeds on a new connection (bounded liveness: the run must reach quiescence with every peer finished)",
     "real": REAL_SYSTEM, "stub": STUB_SYSTEM, "assumptions": ADV_ASSUME,
     "level_text": "Seeded exploration of hostile inputs at every reachable protocol state with a liveness epilogue; panics are observed on the captured net/http error log, wedges as a peer that never gets its answer.",
@@ -141,7 +141,7 @@ PROPS["C13"] = {
 }
 
 PROPS["C08"] = {
-    "test": "TestC08", "level": "exploration", "budget": {"quick": 30, "thorough": 900},
+    "test": "TestC08", "level": "exploration", "budget": {"quick": 30, "thorough": 600},
     "rule": "the real transport with one accessory (bool, int, float and string characteristics, all with events); controller X verifies and subscribes to all of them, then 1..4 application goroutines set 1..4 unique values each (string values optionally of several frames), a second verified controller Y writes by PUT, X's own GET requests are answered, and hap.KeepAlive (started by the harness as a user would) fires when the scheduler advances the simulated clock by 10 minutes; every hap.Connection.Write entry, every write-mutex acquisition and every socket write entry is a park, so the scheduler decides in which order sealed frames reach the socket. Oracle: everything the accessory put on X's socket, in socket order, authenticates frame by frame with counters 0,1,2,... under the reference framing, and the decrypted stream is a concatenation of the payloads recorded at Connection.Write (each intact and contiguous). non-trivial = at least two writers were parked on X's connection (at the socket or at the write mutex) at the same quiescent point; distinct = distinct (scenario shape, event-log hash)",
     "real": REAL_SYSTEM + ["hap.KeepAlive (real), driven by the fake clock"], "stub": STUB_SYSTEM,
     "assumptions": ["token passing orders all goroutines, so unsynchronised memory access inside Encrypt is not visible to this check (no park inside Encrypt)",
@@ -155,7 +155,7 @@ VAL_ASSUME = ["x/crypto, std crypto, encoding/json and net/http are trusted and 
               "interleavings at park-point granularity"]
 
 PROPS["C09"] = {
-    "test": "TestC09", "level": "exploration", "budget": {"quick": 30, "thorough": 900},
+    "test": "TestC09", "level": "exploration", "budget": {"quick": 30, "thorough": 600},
     "rule": "a bridge built from 3..12, 20..60 or all ~167 zero-argument characteristic constructors found in /repo (1..8 per accessory, so 1 to ~170 accessories), 1..3 verified controllers and 1..2 application goroutines run 1..14 operations over a working set of 1..4 characteristics: application set / get, controller GET /characteristics with 1..5 ids (existing, foreign, missing), GET /accessories, PUT of in-range values per format (booleans, integers within min/max, floats in 0.1 steps, UTF-8 strings with quotes / escapes / HTML characters / non-BMP runes up to 3000 runes, base64 payloads up to 2500 bytes); the scheduler interleaves actors and segments TCP. Oracles: per-characteristic register linearizability of all sets, PUTs and reads (porcupine, operations stamped with scheduler sequence numbers), 200 vs 207, one entry per requested id in order, a status on every entry of a 207 answer, an error status for missing ids, PUT answered 204, remote-update callbacks carry exactly the uniquely written values, exactly once. non-trivial = more than one operation; distinct = distinct (selection size, operation kinds per actor, event-log hash)",
     "real": REAL_SYSTEM, "stub": STUB_SYSTEM, "assumptions": VAL_ASSUME + ["a reading without a value key is taken as the zero value of the format (omitempty drops \"\", 0 and false)", "porcupine Unknown (timeout) is counted as inconclusive, never as a violation; histories are capped at 40 operations per characteristic"],
     "level_text": "Seeded exploration over constructors x values x id lists x bridge sizes with concurrent actors; value fidelity is decided by a linearizability check of each characteristic's history against a register model, the response shape by direct comparison.",
@@ -163,21 +163,21 @@ PROPS["C09"] = {
     "technique": "deterministic simulation: seeded schedules and segmentation, recorded invoke/return history checked for linearizability (porcupine) against a register model, shrinking and replay",
 }
 PROPS["C10"] = {
-    "test": "TestC10", "level": "exploration", "budget": {"quick": 30, "thorough": 900},
+    "test": "TestC10", "level": "exploration", "budget": {"quick": 30, "thorough": 600},
     "rule": "same bridge; 1..3 verified controllers and 1..2 application goroutines run 1..14 operations from {application set, controller PUT (unique values, or deliberately the current value), subscribe, unsubscribe, close + reconnect + verify, GET}; the order in which connections are notified is a scheduler choice (connection-order hook); every controller ends with a drain round trip once all operations are done. Interval oracle per (change, connection): exactly one EVENT if the connection's last subscription-affecting operation that returned before the change began is an accepted subscribe, nothing of that connection overlaps the change, it is open and not the originator and no other write to that characteristic overlaps; none if it is the originator, closed before, never subscribed before the change ended, last unsubscribed, the value did not change or the characteristic has no ev permission; either otherwise; never two; never an event nobody wrote. non-trivial = more than one operation",
     "real": REAL_SYSTEM, "stub": STUB_SYSTEM, "assumptions": VAL_ASSUME + ["boolean characteristics are excluded from exactly-once counting (values are not unique)", "ProgrammableSwitchEvent style 'notify on same value' is not modelled: 'same' writes on it are judged 'either' only when overlapping"],
     "level_text": "Seeded exploration of subscribe / change / close histories over several connections with a purpose-built interval checker over the recorded history (scheduler sequence numbers).",
     "level_note": "Sampling.",
 }
 PROPS["C11"] = {
-    "test": "TestC11", "level": "exploration", "budget": {"quick": 30, "thorough": 900},
+    "test": "TestC11", "level": "exploration", "budget": {"quick": 30, "thorough": 600},
     "rule": "same bridge with generated permission sets overriding a third of the characteristics (any subset of pr/pw/ev); operations: application set, in-process UpdateValueFromConnection, controller PUT of values, ev:true / ev:false, GET /characteristics, GET /accessories. Oracles: a remote write (HTTP or in-process) to a characteristic without pw leaves the value unchanged and runs no callback; a characteristic without pr has a nil stored value at every quiescent point and no value key in any answer; ev on a characteristic without ev is answered with a status entry and no EVENT for it is ever delivered",
     "real": REAL_SYSTEM, "stub": STUB_SYSTEM, "assumptions": VAL_ASSUME + ["the weight of this check is carried by enumerating constructors x permission sets x values; the simulator contributes the delivery path and the 'no event later' history"],
     "level_text": "Seeded exploration over constructors, permission sets and values on both the in-process and the HTTP path, as invariants at quiescent points and over the recorded history.",
     "level_note": "Sampling.",
 }
 PROPS["C12"] = {
-    "test": "TestC12", "level": "exploration", "budget": {"quick": 30, "thorough": 900},
+    "test": "TestC12", "level": "exploration", "budget": {"quick": 30, "thorough": 600},
     "rule": "same bridge; application set, in-process UpdateValueFromConnection and controller PUT with arbitrary finite JSON values (numbers of any magnitude and sign, numeric and non-numeric strings incl. \"NaN\" and \"1e400\", booleans, null, arrays, objects, and the previous value repeated); invariant at every quiescent point for every readable characteristic: the dynamic type of the stored value is the one the typed getter asserts for the format, it lies within the declared minimum and maximum, floats are finite; at the end every accessory encodes as JSON; no handler or application goroutine panicked",
     "real": REAL_SYSTEM, "stub": STUB_SYSTEM, "assumptions": VAL_ASSUME + ["'type its format declares' is read as the Go type the typed getter asserts (int, float64, bool, string); integer formats are only held to their declared min/max, not to the width of the format"],
     "level_text": "Seeded exploration over constructors x arbitrary JSON values x update sequences, checked as a state invariant at every quiescent point.",
@@ -185,7 +185,7 @@ PROPS["C12"] = {
 }
 
 PROPS["C20"] = {
-    "test": "TestC20", "level": "exploration", "budget": {"quick": 25, "thorough": 900},
+    "test": "TestC20", "level": "exploration", "budget": {"quick": 25, "thorough": 600},
     "env": {"thorough": {"VERIF_C20_ALL_CODES": "1"}},
     "rule": "histories of 1..9 operations on one storage directory from {restart with the same structure and other values, restart with a structurally different accessory set (6 variants: single switch, bridge, extra characteristic, other permission list and extra service), pair-setup on the wire, add pairing and remove pairing through /pairings by a verified controller, value changes through the application API, probe by a paired controller}; after every start and after every pair / unpair event: the id TXT record and the long-term public key equal the first run's, every model pairing is stored and nothing else, c# equals the previous c# plus one exactly when an independent value-stripping canonicaliser of the encoded attribute database gives another hash than for the previous run, sf in the stub responder's latest TXT record is 1 exactly when the model holds no controller pairing, and the setup URI decodes back to code, category, IP flag and setup id. Pure sub-claims by plain enumeration in the same command (not simulation): ValidatePin over a stride sample of the code space in quick and all 10^8 codes in thorough plus 15 malformed strings; XHMURI decode over 256 categories x 16 flag sets x 7 codes. non-trivial = at least one restart or stored pairing",
     "real": REAL_SYSTEM, "stub": STUB_SYSTEM + ["restart = close every connection, stop the transport, drop every object, build a new transport on the same directory"],
